@@ -24,7 +24,9 @@ def fbits(f):
 
 
 FLOAT_EDGES = [0.0, -0.0, 1.0, -1.5, float("inf"), float("-inf"), float("nan"), 1e308, 5e-324, 0.1,
-               1.7976931348623157e308, 2.5e-10, 123456789.125]
+               1.7976931348623157e308, 2.5e-10, 123456789.125,
+               struct.unpack(">d", b"\xff\xf8\x00\x00\x00\x00\x00\x00")[0],       # NaN with the sign bit
+               struct.unpack(">d", b"\x7f\xf8\x00\x00\x00\x00\x00\x01")[0]]       # NaN with a payload
 
 
 def floats():
@@ -43,7 +45,7 @@ def byteses():
 
 
 TEXT_EDGES = ["", "a", "abc", "x" * 255, "x" * 256, "\xe9", "caf\xe9", "€", "\U0001f600", "a\x00b",
-              "\x7f", "\x80", "\xff", "Ā", "￿", "na\xefve 中文"]
+              "\x7f", "\x80", "\xff", "Ā", "￿", "na\xefve 中文", "\ufeff", "\ufeffabc", "a\ufeff", "\ufffe", "\u2028x"]
 SURROGATES = ["\ud800", "\udfff", "a\udc80b", "\ud83d", "\udc00\ud800", "\ud83d\ude00", "x\ud800\udc00y",
               "\udbff\udfff", "\ud83d\ud83d\ude00"]
 
